@@ -9,7 +9,9 @@ Tie between Model/Failure.lean and the real code:
         cluster at message level;
   (iii) real local clusters (zmq tcp + shm + fork, in a subprocess with its own session) with an injected
         fault; oracle from the property text: `run` ends before a deadline, never with a wrong value,
-        afterwards no process of the run and no /dev/shm segment of the run remain.
+        afterwards no process of the run and no /dev/shm segment of the run remain;
+  (iv)  random histories of the real shm Manager (sim_shm) ended by Manager.atexit, compared with the model's `atexit`;
+        any segment left in /dev/shm is a violation.
 """
 import ast
 import json
@@ -24,19 +26,22 @@ LEVEL_TEXT = ("Lean theorems over Model/Failure.lean instantiated with the healt
               "failure-class message makes Bridge.recv_events shut down and raise whatever else is in the batch; from any such state "
               "the run has ended after executor tick + delivery + controller receive (and after ANY fair schedule), with an error "
               "whenever the controller was still waiting; outputs are only ever written from payloads read; terminate is idempotent and "
-              "leaves no child alive. Unbounded in workers, messages, schedules. Segments: proved only when the shm server was not SIGKILLed.")
+              "leaves no child alive. Unbounded in workers, messages, schedules. Segments: the shm server's exit handler (Manager.atexit, Model/Shm.lean) "
+              "unlinks every segment after any conforming history whatever readers/writers/disk jobs are still registered; executor level proved only "
+              "when the shm server was not SIGKILLed.")
 LEVEL_NOTE = ("modelled, not verified: Executor.healthcheck/terminate/recv_loop, entrypoint.execute_sequence, Bridge.recv_events/shutdown, "
               "impl.run (scheduler abstracted to tasks-remaining / outputs-missing). Process table, /dev/shm, exit codes delivered by the OS, "
               "wall-clock bounds and message delivery (C06) are not proved; they are sampled by real-cluster fault runs")
 TECHNIQUE = ("Lean 4 proof (stage invariants over arbitrary fair schedules; table side condition by decide) + AST translator for healthcheck + "
              "differential correspondence on shell objects + real-cluster fault injection with a process-table//dev/shm oracle")
-LEAN_PROPS = ["EkwVerif.Props.C05"]
-LEAN_DRIVERS = ["C05"]
+LEAN_PROPS = ["EkwVerif.Props.C05", "EkwVerif.Props.C05Shm"]
+LEAN_DRIVERS = ["C05", "C08"]
 RULE = ("healthcheck: every combination of handle states {never-started, alive, exit 0, 1, -9} for 1-2 workers x {alive,0,1,-9} for shm and data "
         "server (480 cases); random executor states/inboxes for recv_loop and terminate; generator tasks with 1-3 outputs crashing at every "
         "point with Exception subclasses / SystemExit(n) / KeyboardInterrupt; random listener streams for Bridge.recv_events; impl.run against a "
         "simulated cluster with a failure message of every class injected at every reply position; real clusters (1-2 hosts x 1-2 workers): "
         "task raises / sys.exit(n) / SIGKILL before, during, after publishing; SIGKILL of data server; SIGKILL/SIGTERM of shm server (own/other host). "
+        "random histories of the real shm Manager (as for C08/C09) each ended by Manager.atexit with readers/writers/disk jobs still registered; "
         "non-trivial = a case with at least one dead child, failure message or injected fault; distinct by content hash")
 ASSUMPTIONS = [
     "shell objects: multiprocessing handles, zmq listener/sender, shm client and the clock are replaced by in-process fakes",
@@ -1324,8 +1329,21 @@ def _inprocess(ctx, use_model=True):
             seen.add(where)
 
 
+def shm_exit_phase(ctx):
+    """(iv) the shm server's exit handler after random histories of the REAL Manager (readers still registered, writers
+    that never closed, delayed purges, disk jobs in flight): leftovers in /dev/shm are a violation; the state after
+    Manager.atexit is compared with the model's `atexit` (theorems c05_atexit_*)."""
+    from ekw import sim_shm
+    sim_shm.ATEXIT_LINE = True
+    try:
+        sim_shm.run_batch(ctx, sim_shm.C05_KINDS, "c09", ctx.budget(150, 2500), ctx.budget(60, 100), ctx.budget(4, 6), "C05shm_*.json")
+    finally:
+        sim_shm.ATEXIT_LINE = False
+
+
 def correspond(ctx):
     _inprocess(ctx, use_model=True)
+    shm_exit_phase(ctx)
     cases = pick_cluster_cases(ctx)
     cluster_phase(ctx, cases + [SHM_WITNESS], healthy=True)
     ctx.extra.pop("_cluster_done_tmp", None)
@@ -1333,6 +1351,7 @@ def correspond(ctx):
 
 def oracle_only(ctx):
     _inprocess(ctx, use_model=False)
+    shm_exit_phase(ctx)
     cluster_phase(ctx, pick_cluster_cases(ctx) + [SHM_WITNESS], healthy=True)
 
 
@@ -1362,6 +1381,10 @@ def replay(payload):
 
         def count(self, *a, **k):
             pass
+    if "ops" in case:
+        from ekw import sim_shm
+        sim_shm.ATEXIT_LINE = True
+        return sim_shm.replay_print(payload, sim_shm.C05_KINDS)
     if "health" in case:
         out = real_health(case["health"])
         o = oracle_health(case["health"], out)
